@@ -353,6 +353,17 @@ class SArr:
     # numpy-ish attributes used by repo code are provided by models (getattr hook in interp)
 
 
+def shares_memory(x, y):
+    """does a write into x reach y (or vice versa)?  same object, or one is a view (basic slicing / transpose) of the other's storage"""
+    def root(a):
+        seen = 0
+        while isinstance(a, SArr) and a.base is not None and seen < 50:
+            a = a.base[0]
+            seen += 1
+        return a
+    return isinstance(x, SArr) and isinstance(y, SArr) and root(x) is root(y)
+
+
 def fresh_array(name, dtype, shape, ranged=True):
     dtype = np.dtype(dtype)
     shape = tuple(dim(s) for s in shape)
